@@ -506,8 +506,8 @@ class MoveMon:
         if not close(claimed, exact, GAIN_RTOL, GAIN_ATOL):
             self.bad('MOVE-claimed-gain-equals-exact-dQ' + deep, 'move %d (level %d): (super-)node %d from module %d to %d, labels of the original nodes before the move %r: claimed gain %r, exact change of Q %r'
                      % (self.moves, max(self.level, 1), u, sup[u], mb + 1, before, claimed, exact))
-        if not exact > 0:
-            self.bad('MOVE-accepted-move-raises-Q' + deep, 'move %d (level %d): (super-)node %d from module %d to %d, labels of the original nodes before the move %r: accepted (claimed %r) but changes Q by %r'
+        if not exact >= -GAIN_ATOL:
+            self.bad('MOVE-accepted-move-does-not-lower-Q' + deep, 'move %d (level %d): (super-)node %d from module %d to %d, labels of the original nodes before the move %r: accepted (claimed %r) but changes Q by %r'
                      % (self.moves, max(self.level, 1), u, sup[u], mb + 1, before, claimed, exact))
 
 
@@ -539,17 +539,16 @@ def c07_case(acc, net, name, mode, gamma, start, hierarchy, rng, script, fb, key
     qf = lambda lab: qref(net, name, mode, lab, gamma)
     mon = MoveMon(qf, gain_scale(net, name, mode))
     _STATE['mon'] = mon
+    aborted = None
     try:
         res = call_variant(woven(name), name, net.W.copy(), gamma, mode, start, rng, hierarchy)
     except ScriptExhausted:
         raise
-    except bct.BCTParamError:
-        acc.case()
-        return False
-    except DrawLimit:                # more random draws than any terminating run needs: "did not terminate", skipped and counted
-        acc.case()
+    except bct.BCTParamError as e:
+        aborted = e
+    except DrawLimit as e:           # more random draws than any terminating run needs: "did not terminate", skipped and counted
+        aborted = e
         acc.nonterm = getattr(acc, 'nonterm', 0) + 1
-        return False
     except Exception as e:
         acc.case()
         acc.violate('%s/RAISES-%s%s' % (name, type(e).__name__, cls), 'in-domain input raised %r' % (e,),
@@ -557,6 +556,17 @@ def c07_case(acc, net, name, mode, gamma, start, hierarchy, rng, script, fb, key
         return False
     finally:
         _STATE['mon'] = None
+    if aborted is not None:
+        # nothing was returned, so the end-to-end clauses do not apply; moves the real code made before giving up were observed all the same
+        if mon.fails:
+            wit = _witness(net, name, mode, gamma, start, hierarchy, script, fb, rng)
+            wit['moves_observed'] = mon.moves
+            wit['run_ended_with'] = repr(aborted)
+            for clause, detail in mon.fails:
+                clause, _, sub = clause.partition('/')
+                acc.violate('%s/%s%s%s' % (name, clause, '/' + sub if sub else '', (cls.replace('/', '+') if sub else cls)), detail, wit)
+        acc.case()
+        return False
     faults = list(mon.fails)
     ref = list(start) if start is not None else list(range(1, n + 1))
     q_start = qf(ref)
@@ -608,11 +618,8 @@ def c07_case(acc, net, name, mode, gamma, start, hierarchy, rng, script, fb, key
         wit['returned'] = {'ci': np.asarray(res[0]).tolist(), 'q': np.asarray(res[1], dtype=float).tolist()}
         wit['moves_observed'] = mon.moves
         for clause, detail in faults:
-            if '/' in clause:
-                clause, sub = clause.split('/', 1)
-                acc.violate('%s/%s/%s%s' % (name, clause, sub, cls.replace('/', '+') if cls else ''), detail, wit)
-            else:
-                acc.violate('%s/%s%s' % (name, clause, cls), detail, wit)
+            clause, _, sub = clause.partition('/')
+            acc.violate('%s/%s%s%s' % (name, clause, '/' + sub if sub else '', (cls.replace('/', '+') if sub else cls)), detail, wit)
     nontrivial = mon.moves > 0 and (not hierarchy or len(levels) >= 2)
     sample = None
     if len(acc.samples) < 2 and nontrivial:
